@@ -173,7 +173,9 @@ Assignments(v, e) ==
     IN IF ~FullFamily(e) THEN {mk(allok, "absent")} \cup {mk(f, "absent") : f \in one}
        ELSE {mk(allok, o) : o \in OtherModes}
             \cup {mk([s \in R |-> "absent"], o) : o \in {"absent", "ok"}}
-            \cup {mk(f, o) : f \in one, o \in (IF MaxFaults < 2 THEN {"absent", "ok"} ELSE OtherModes)}
+            \cup {mk(f, o) : f \in one, o \in (IF MaxFaults < 2 THEN {"absent"} ELSE OtherModes)}
+            \* (one fault with the other servers signing validly: where a second server is around anyway)
+            \cup (IF MaxFaults < 2 /\ Cardinality(R) > 1 THEN {mk(f, "ok") : f \in one} ELSE {})
             \cup {mk(f, o) : f \in two, o \in {"absent", "ok"}}
 
 AllDB == [s \in Servers |-> "db"]
